@@ -95,6 +95,9 @@ def c_mode(temp, f_ev, classical):
     """per-mode values of the compiled kernels: one q-point, one band, weight 1, cutoff below f"""
     import phonopy._phonopy as phonoc
 
+    if not hasattr(phonoc, "thermal_properties"):
+        return None
+
     props = np.zeros((1, 3), dtype="double", order="C")
     phonoc.thermal_properties(props, np.array([temp], dtype="double"), np.array([[f_ev]], dtype="double"),
                               np.array([1], dtype="int64"), -1.0, int(classical))
@@ -103,6 +106,9 @@ def c_mode(temp, f_ev, classical):
 
 def py_mode(temp, f_ev, classical):
     from phonopy.phonon import thermal_properties as TP
+
+    if not all(hasattr(TP, n_) for n_ in ("mode_F", "mode_S", "mode_cv", "mode_ZPE")):
+        return None
 
     with warnings.catch_warnings():
         warnings.simplefilter("ignore")
@@ -254,6 +260,15 @@ def rand_unitary(rng, n):
     return qm
 
 
+def projected(run, tp, info=None):
+    """projected thermal properties have no public getter (only the 7-decimal yaml text): the private tuple is the only tie of the
+    projection model to the code — if it is gone the correspondence of that part is reported as not checked"""
+    v = getattr(tp, "_projected_thermal_properties", None)
+    if v is None:
+        run.broke("correspondence", "model input unavailable: ThermalProperties._projected_thermal_properties", info)
+    return v
+
+
 class FormTracker:
     """The Python S / C_V formulas and the zero-point sum each exist in a pinned and a repaired form
     (proved equal over the reals where both are defined).  The implementation must agree with ONE of
@@ -397,6 +412,9 @@ def main(run):
     import phonopy._phonopy as phonoc
 
     for c in mesh_cases:
+        if not hasattr(phonoc, "thermal_properties"):
+            run.count("intermediate hook unavailable: phonopy._phonopy.thermal_properties", section="oracle")
+            break
         kept = np.array([t for t in c["temps"] if not (t < 0)], dtype="double")
         if c["nq"] * c["nb"] * len(kept) > 400 or sum(1 for m_ in meta if m_[0] == "cloop") >= (300 if thorough else 40):
             continue
@@ -445,7 +463,9 @@ def main(run):
                 raise
             run.violation(site_kf, "projection-band-indices", "is_projection with band_indices raises %s: %s" % (type(e).__name__, e), pinfo)
             continue
-        ptp = tp._projected_thermal_properties
+        ptp = projected(run, tp, pinfo)
+        if ptp is None:
+            continue
         tt, tF, tS, tC = tp.thermal_properties
         bad = False
         for nm, comp, ref, fl in (("free energy", ptp[1], tF, conv * 0.1), ("entropy", ptp[2], tS, kB * conv * 1000 * nb), ("heat capacity", ptp[3], tC, kB * conv * 1000 * nb)):
@@ -526,7 +546,11 @@ def main(run):
         if proj:
             e2 = np.abs(ph.mesh.eigenvectors) ** 2
             lines.append(proj_request(kw["classical"], kw["pretend_real"], kw["cutoff_frequency"], c["w"], ph.mesh.frequencies, e2, None, temps))
-            meta.append(("proj", (tpo._projected_thermal_properties, dict(cell=name, mesh=msh, kw=kw, totals={k_: np.array(v_) for k_, v_ in d.items()}))))
+            ptp_ = projected(run, tpo, dict(cell=name, mesh=msh))
+            if ptp_ is not None:
+                meta.append(("proj", (ptp_, dict(cell=name, mesh=msh, kw=kw, totals={k_: np.array(v_) for k_, v_ in d.items()}))))
+            else:
+                lines.pop()
         # ---- call SEQUENCE on this one object and one mesh: one option changes per call, every call against the closed forms
         #      for the options of THAT call (a result cached from an earlier call with other options shows at once)
         frm, wm = np.array(ph.mesh.frequencies), list(map(int, ph.mesh.weights))
@@ -599,6 +623,10 @@ def main(run):
             cF_, cS_, cCv_, pF_, pS_, pCv_, pZ_, pS2_, pCv2_ = vals
             ci = c_mode(T, f, cl)
             pi = py_mode(T, f, cl)
+            if ci is None or pi is None:
+                # optional refinement (the mesh-level correspondence through ThermalProperties.run ties the same model definitions)
+                run.count("intermediate hook unavailable: " + ("phonopy._phonopy.thermal_properties" if ci is None else "thermal_properties.mode_F/mode_S/mode_cv/mode_ZPE"), section="oracle")
+                continue
             ncmp += 7
             kT = kB * T
             ex = cond(x)
